@@ -447,12 +447,15 @@ class CursorResultMetaData(ResultMetaData):
                 for metadata_entry in raw
             }
 
-            if len(by_key) != num_ctx_cols:
+            if len(by_key) != num_ctx_cols or len(by_key) != len(raw):
                 # if by-primary-string dictionary smaller than
                 # number of columns, assume we have dupes; (this check
                 # is also in place if string dictionary is bigger, as
                 # can occur when '*' was used as one of the compiled columns,
-                # which may or may not be suggestive of dupes), rewrite
+                # which may or may not be suggestive of dupes; when the
+                # cursor has a different number of columns than the compiled
+                # statement, names repeated in cursor.description are
+                # detected by comparing to the number of records), rewrite
                 # dupe records with "None" for index which results in
                 # ambiguous column exception when accessed.
                 #
